@@ -13,8 +13,8 @@ from vt.monitors import fsmon
 
 ID = 'C11'
 TIERS = {
-    'quick': dict(shards=16, cases=14, watchdog_s=900),
-    'thorough': dict(shards=16, cases=500, watchdog_s=7000),
+    'quick': dict(shards=16, cases=80, watchdog_s=900),
+    'thorough': dict(shards=16, cases=3000, watchdog_s=7000),
 }
 RULE = ('case = deterministic sh command (0-7 stdout lines, 0-3 stderr lines, 0-3 text/binary output files, exit status '
         '0/1/3/255; text mixes words, numbers, quotes, backslashes, regex metacharacters, unicode, date-/time-/version-/'
